@@ -48,6 +48,10 @@ pub struct Sc {
     pub uv_queries: Vec<UvQuery>,
     #[serde(default)]
     pub near_queries: Vec<NearQuery>,
+    /// how the flattened layout is turned into the UV chart of the companion round trip:
+    /// 0 as it is, 1 v axis flipped (image coordinates), 2 u and v exchanged, 3 rotated and scaled
+    #[serde(default)]
+    pub chart: u8,
 }
 
 pub struct UvObs {
@@ -268,6 +272,16 @@ fn procrustes_residual(a: &[[f64; 2]], b: &[[f64; 2]]) -> f64 {
     worst
 }
 
+/// The affine map that turns the flattened layout into the UV chart used by the companion.
+fn chart_apply(chart: u8, p: [f64; 2]) -> [f64; 2] {
+    match chart {
+        1 => [p[0], -p[1]],
+        2 => [p[1], p[0]],
+        3 => [3.0 * (0.6 * p[0] - 0.8 * p[1] + 2.0), 3.0 * (0.8 * p[0] + 0.6 * p[1] - 1.0)],
+        _ => p,
+    }
+}
+
 fn posed_mesh(sc: &Sc, p: &Pose) -> M {
     p.apply_mesh(&sc.mesh)
 }
@@ -366,6 +380,13 @@ impl Property for C20 {
         if kind != Kind::Reject && !mesh.has_distinct_positions() {
             mesh = gen_planar_base(rng, tier).1;
         }
+        // a consistently wound disk may just as well face the other way (every face reversed)
+        if kind != Kind::Reject && rng.chance(0.25) {
+            for f in mesh.f.iter_mut() {
+                f.swap(1, 2);
+            }
+            label.push_str("+face-down");
+        }
         // the length unit is arbitrary: micrometre-sized and kilometre-sized copies must behave alike
         // (bounded below so that every face keeps an area above 1e-13: parry treats a triangle
         // whose cross product is below f64::EPSILON as having no normal at all)
@@ -384,6 +405,22 @@ impl Property for C20 {
         for i in 0..np {
             if i == 0 && rng.chance(0.4) {
                 poses.push(Pose::identity());
+            } else if rng.chance(0.2) {
+                // exact quarter and half turns (signed permutation matrices of determinant +1): a
+                // planar disk stays exactly in a coordinate plane, possibly face down
+                let perms = [[0usize, 1, 2], [1, 2, 0], [2, 0, 1], [0, 2, 1], [2, 1, 0], [1, 0, 2]];
+                let p = perms[rng.below(6)];
+                let even = matches!(p, [0, 1, 2] | [1, 2, 0] | [2, 0, 1]);
+                let mut sg = [if rng.chance(0.5) { 1.0 } else { -1.0 }, if rng.chance(0.5) { 1.0 } else { -1.0 }, 1.0];
+                // fix the last sign so that the determinant is +1
+                let parity = if even { 1.0 } else { -1.0 };
+                sg[2] = parity * sg[0] * sg[1];
+                let mut r = [[0.0; 3]; 3];
+                for k in 0..3 {
+                    r[k][p[k]] = sg[k];
+                }
+                let t = if rng.chance(0.5) { [0.0; 3] } else { [size * rng.range(-3, 3) as f64, 0.0, size * rng.range(-3, 3) as f64] };
+                poses.push(Pose { r, t });
             } else {
                 let t = size * *rng.pick(&[0.0, 1.0, 10.0, 1000.0]);
                 poses.push(Pose::random(rng, t));
@@ -446,7 +483,8 @@ impl Property for C20 {
                 near_queries.push(NearQuery { face, bc, offset });
             }
         }
-        Sc { label, kind, mesh, poses, uv_queries, near_queries }
+        let chart = if rng.chance(0.4) { 1 + rng.below(3) as u8 } else { 0 };
+        Sc { label, kind, mesh, poses, uv_queries, near_queries, chart }
     }
 
     fn swarm(&self, rng: &mut Rng, sc: &Sc) -> Swarm {
@@ -501,7 +539,12 @@ impl Property for C20 {
                 if let Some(OpResult::Done(Ok(layout))) = &flat {
                     let size = sc.mesh.size();
                     uv = Some(sim.op("Mesh::uv_to_3d/uv_with_tol", b, || {
-                        let map = UvMapping::new(layout.iter().map(|p| Point2::new(p[0], p[1])).collect(), pm.f.clone()).map_err(|e| e.to_string())?;
+                        // any chart of the same triangles is a UV map, whatever its handedness
+                        let chart_pt = |p: &[f64; 2]| -> Point2 {
+                            let q = chart_apply(sc.chart, *p);
+                            Point2::new(q[0], q[1])
+                        };
+                        let map = UvMapping::new(layout.iter().map(chart_pt).collect(), pm.f.clone()).map_err(|e| e.to_string())?;
                         let verts: Vec<Point3> = pm.v.iter().map(|p| Point3::new(p[0], p[1], p[2])).collect();
                         let with_uv = Mesh::new_with_uv(verts, pm.f.clone(), false, Some(map));
                         let mut to_3d = Vec::new();
@@ -705,10 +748,10 @@ impl Property for C20 {
                                 }
                                 if let Some(uv) = uv {
                                     let f = posed.f[q.face];
-                                    let e2 = [
+                                    let e2 = chart_apply(sc.chart, [
                                         uv[f[0] as usize][0] * q.bc[0] + uv[f[1] as usize][0] * q.bc[1] + uv[f[2] as usize][0] * q.bc[2],
                                         uv[f[0] as usize][1] * q.bc[0] + uv[f[1] as usize][1] * q.bc[1] + uv[f[2] as usize][1] * q.bc[2],
-                                    ];
+                                    ]);
                                     match &o.back[qi] {
                                         None => {
                                             out.push(Violation::new("uv-round-trip", "Mesh::uv_with_tol", format!("query {} on face {} (offset {}) returned None", qi, q.face, q.h), &[vi]));
@@ -716,7 +759,7 @@ impl Property for C20 {
                                         }
                                         Some((p, d)) => {
                                             let du = ((p[0] - e2[0]).powi(2) + (p[1] - e2[1]).powi(2)).sqrt();
-                                            if du > 1e-6 * size || (d - q.h * size).abs() > 1e-6 * size {
+                                            if du > 4e-6 * size || (d - q.h * size).abs() > 1e-6 * size {
                                                 out.push(Violation::new("uv-round-trip", "Mesh::uv_with_tol", format!("query {} on face {}: uv off by {:.3e}, depth {} expected {}", qi, q.face, du, d, q.h * size), &[vi]));
                                                 break;
                                             }
